@@ -126,6 +126,20 @@ func (p *c08) Init(tier string) {
 			}
 		}
 	}
+	// further shapes: levels that hold exactly as many arrays as their parent has elements (opening
+	// such a level does not change the length), empty arrays next to deeper ones, depth 4
+	for _, a := range small {
+		for _, b := range small {
+			x, y := func() any { return mkInner(inners[a], 0) }, func() any { return mkInner(inners[b], 10) }
+			p.docs = append(p.docs,
+				[]any{[]any{x()}, []any{y()}},
+				[]any{[]any{}, []any{x(), y()}},
+				[]any{[]any{x(), y()}, []any{}},
+				[]any{[]any{[]any{x()}}, []any{[]any{y()}}},
+				[]any{[]any{[]any{x()}, []any{y()}}})
+		}
+		p.docs = append(p.docs, []any{[]any{mkInner(inners[a], 0)}}, []any{[]any{[]any{mkInner(inners[a], 0)}}})
+	}
 	p.docs = append(p.docs, []any{[]any{}, []any{[]any{}}}, []any{})
 }
 
@@ -262,7 +276,7 @@ func (p *c08) RunCase(i int) *core.CaseResult {
 
 func (p *c08) Meta() core.Meta {
 	return core.Meta{
-		Rule:        "one case per (query, kind): 30 filter / projection queries (every WHERE operator family, non-idempotent select lists such as a+1 AS a, star plus expression, CASE, function calls, whole-table aggregates evaluated per row, GETVAR / SETVAR / CONSTANT under WithVars and WithConstants) run on a FROM path that resolves to arrays of arrays: every outer array of 1..2 (thorough 3) inner arrays, each any sequence of <= 2 rows over 3 archetypes (ragged, empty), plus depth-3 nestings; the nested result must equal the per-inner-array executions of the same query, and `mix=>` + one query must equal their concatenation. non-trivial = some inner result is non-empty",
+		Rule:        "one case per (query, kind): 30 filter / projection queries (every WHERE operator family, non-idempotent select lists such as a+1 AS a, star plus expression, CASE, function calls, whole-table aggregates evaluated per row, GETVAR / SETVAR / CONSTANT under WithVars and WithConstants) run on a FROM path that resolves to arrays of arrays: every outer array of 1..2 (thorough 3) inner arrays, each any sequence of <= 2 rows over 3 archetypes (ragged, empty), plus depth-3 and depth-4 nestings (incl. levels with exactly as many arrays as their parent has elements, and empty arrays next to deeper ones); the nested result must equal the per-inner-array executions of the same query, and `mix=>` + one query must equal their concatenation. non-trivial = some inner result is non-empty",
 		Assumptions: []string{"only WHERE and the select list are claimed for nested sources (the property's statement); ORDER BY / LIMIT / aggregates over nested sources are not exercised"},
 		Bounds:      map[string]any{"queries": len(c08Queries), "documents": len(p.docs)},
 		Exhaustive:  true,
